@@ -177,8 +177,16 @@ def check_props(prop, extra_modules=()):
     return len(thms), len(thms), thms
 
 
-def run_lines(binary, lines, timeout=1800, chunk=None):
-    """Feed lines to a line-protocol driver; survive crashes of the driver."""
+def _limit_mem(nbytes):
+    def f():
+        import resource
+        resource.setrlimit(resource.RLIMIT_AS, (nbytes, nbytes))
+    return f
+
+
+def run_lines(binary, lines, timeout=1800, chunk=None, mem_limit=None):
+    """Feed lines to a line-protocol driver; survive crashes of the driver.
+    mem_limit (bytes): address-space limit for the driver process (allocation failure aborts it)."""
     os.makedirs(TMP, exist_ok=True)
     outs = []
     i = 0
@@ -187,7 +195,8 @@ def run_lines(binary, lines, timeout=1800, chunk=None):
         data = ("\n".join(lines[i:]) + "\n").encode("utf-8")
         try:
             p = subprocess.run([binary], input=data, stdout=subprocess.PIPE,
-                               stderr=subprocess.PIPE, timeout=timeout)
+                               stderr=subprocess.PIPE, timeout=timeout,
+                               preexec_fn=_limit_mem(mem_limit) if mem_limit else None)
             got = p.stdout.decode("utf-8", "replace").split("\n")
             if got and got[-1] == "":
                 got.pop()
